@@ -13,7 +13,9 @@ META = dict(
          "ACTIVE / FAILED are absorbing and only the BIP9 transitions occur at period boundaries. Every transition of the state graph "
          "(Mine, GetStateFor, GetStateSinceHeightFor, GetStateStatisticsFor in every cache state) is replayed on the real "
          "VersionBitsConditionChecker over synthetic CBlockIndex trees with one persistent ThresholdConditionCache; after every step "
-         "every block is asked again with a fresh cache and VersionBitsCache::IsActiveAfter is asked alongside.",
+         "every block is asked again with a fresh cache and VersionBitsCache::IsActiveAfter is asked alongside. Model times are offsets "
+         "(TLC proves the states invariant under a common shift); every test is replayed with the epoch today, straddling 2^31, "
+         "beyond 2^31 and with the largest block time at 2^32 - 1.",
     note="Bounded: periods of 1-3 blocks, up to 14 blocks, one fork, 2-6 timestamp values; exhaustive over block contents for <= 6 blocks, "
          "larger trees are sampled from VERIF_SEED (all query orders on each). Assumes the median time past does not decrease along a "
          "chain (consensus rule time-too-old); without it the code's pre-start shortcut returns DEFINED after STARTED (recorded in the evidence as mtp_assumption_probe).",
@@ -22,6 +24,18 @@ META = dict(
 
 ACTIONS = ("mine", "state", "since", "stats")
 STATES = ("defined", "started", "locked_in", "active", "failed")
+
+
+def epochs_for(cfg):
+    """Model time t is realised as E + 600 * t. Epochs: today; t = 1 (and the middle of the time domain) exactly at 2^31;
+    t = 1 at 2^31 - 1; everything beyond 2^31; the largest block time exactly 2^32 - 1 (start / timeout above it need 33 bits)."""
+    tmax = max(cfg_constants(cfg)["Times"])
+    e = [1500000000, 2 ** 31 - 600, 2 ** 31 - 600 * max(1, (tmax + 1) // 2), 2 ** 31 - 601, 2 ** 31 + 12345, 2 ** 32 - 1 - 600 * tmax]
+    out = []
+    for x in e:
+        if x not in out:
+            out.append(x)
+    return out
 
 
 def stream(path):
@@ -202,16 +216,18 @@ def replay_graph(ctx, binary, r, cfg, name, tally, max_len=80):
     t = tests[len(tests) // 2]
     ctx.sample(dict(init=t["init"], actions=[s["a"] for s in t["steps"][:12]], predicted=[s["r"] for s in t["steps"][:12]]))
     ctx.log("E1 %s: %d states, %d transitions -> %d paths, %d steps" % (name, len(g.nodes), g.nedges, len(tests), nsteps))
-    res = ctx.run_harness(binary, "replay", tests, name=name)
+    epochs = epochs_for(cfg)
+    ctx.extra.setdefault("epochs", {})[name] = epochs
+    res = ctx.run_harness(binary, "replay", tests, name=name, args=epochs)
     ctx.evaluations += int(res["summary"]["steps"]); ctx.traces += int(res["summary"]["tests"])
     ctx.extra["replayed_steps"] = ctx.extra.get("replayed_steps", 0) + int(res["summary"]["steps"])
-    vflib.report_mismatches(ctx, binary, "replay", res, adapter="versionbits", what_prefix="VersionBits %s: " % name)
+    vflib.report_mismatches(ctx, binary, "replay", res, args=epochs, adapter="versionbits", what_prefix="VersionBits %s: " % name)
     if res["summary"].get("deviations"):
         check_deviations(ctx, res, cfg, name)
         # a deviation ends the comparison of its path: replay once more without the internal key
-        res2 = ctx.run_harness(binary, "replay", [strip_cache(t) for t in tests], name=name + "-nocache")
+        res2 = ctx.run_harness(binary, "replay", [strip_cache(t) for t in tests], name=name + "-nocache", args=epochs)
         ctx.evaluations += int(res2["summary"]["steps"])
-        vflib.report_mismatches(ctx, binary, "replay", res2, adapter="versionbits", what_prefix="VersionBits %s (answers only): " % name)
+        vflib.report_mismatches(ctx, binary, "replay", res2, args=epochs, adapter="versionbits", what_prefix="VersionBits %s (answers only): " % name)
     return g
 
 
@@ -306,6 +322,8 @@ def run(ctx):
         "(2 timestamp values), larger trees sampled from VERIF_SEED with every query order explored on each",
         "GetStateStatisticsFor is compared where BIP9 reports statistics (block in a STARTED or LOCKED_IN period); it cannot see the cache, "
         "so it is explored from the empty cache only",
+        "model times are offsets realised as epoch + 600 s * t; each replay uses the epochs listed under coverage.epochs (today, t=1 at 2^31 and at "
+        "2^31 - 1, the middle of the time domain at 2^31, everything beyond 2^31, largest block time = 2^32 - 1 with start / timeout above 32 bits)",
         "block versions are six classes (signalling with and without other bits, not signalling, neighbouring bits, wrong top bits, pre-versionbits number)"]
     return ctx.finish(level="model_checking", exhaustive=True,
                       rule="every transition of the bounded VersionBits state graphs (block trees enumerated up to 6 blocks; sampled trees of up to 14 blocks "
